@@ -16,6 +16,7 @@ more than three items assigned in isinstance ladders inside loops (4-pass cap), 
 from __future__ import annotations
 
 HEADER = '''from __future__ import annotations
+from typing import final
 _REC: list[tuple[int, object]] = []
 def probe(k: int, x: object) -> None:
     _REC.append((k, x))
@@ -44,6 +45,21 @@ class B1(B0):
     def __init__(self, flag: bool) -> None:
         self.flag = flag
         self.tag = 1
+@final
+class BF(B0):
+    def __init__(self, flag: bool) -> None:
+        self.flag = flag
+        self.fin = 1
+@final
+class LF(L0):
+    def __init__(self, items: list[int]) -> None:
+        self.items = items
+        self.fin = 2
+@final
+class AF(A0):
+    def __init__(self, v: int) -> None:
+        self.v = v
+        self.fin = 3
 def risky(k: int) -> int:
     if k % 4 == 0:
         raise ValueError("v")
@@ -64,14 +80,20 @@ VALUES = {
     "L1": ["L1([], 't')", "L1([2], 't')", "L1([m] * (n % 2), 'u')"],
     "B0": ["B0(True)", "B0(False)", "B0(n > 1)"],
     "B1": ["B1(True)", "B1(False)", "B1(m > 1)"],
+    "BF": ["BF(True)", "BF(False)", "BF(n > 1)"],
+    "LF": ["LF([])", "LF([1])", "LF([n] * (m % 2))"],
+    "AF": ["AF(0)", "AF(n)"],
 }
-SUBCLASSES = {"A0": ["A0", "A1"], "A1": ["A1"], "L0": ["L0", "L1"], "L1": ["L1"], "B0": ["B0", "B1"], "B1": ["B1"]}
-SUPER = {"A1": "A0", "L1": "L0", "B1": "B0"}
+SUBCLASSES = {"A0": ["A0", "A1", "AF"], "A1": ["A1"], "L0": ["L0", "L1", "LF"], "L1": ["L1"], "B0": ["B0", "B1", "BF"], "B1": ["B1"],
+              "BF": ["BF"], "LF": ["LF"], "AF": ["AF"]}
+SUPER = {"A1": "A0", "L1": "L0", "B1": "B0", "BF": "B0", "LF": "L0", "AF": "A0"}
 USES = {"int": ["{v} + 1"], "str": ["{v} + 'x'"], "A0": ["{v}.v"], "A1": ["{v}.w", "{v}.v"], "L0": ["{v}.items"],
-        "L1": ["{v}.note", "{v}.items"], "B0": ["{v}.flag"], "B1": ["{v}.tag", "{v}.flag"]}
+        "L1": ["{v}.note", "{v}.items"], "B0": ["{v}.flag"], "B1": ["{v}.tag", "{v}.flag"],
+        "BF": ["{v}.fin", "{v}.flag"], "LF": ["{v}.fin", "{v}.items"], "AF": ["{v}.fin", "{v}.v"]}
 TYPES = [["int", "None"], ["str", "None"], ["int", "str"], ["A0", "None"], ["A1", "None"], ["A0", "int"], ["L0", "None"],
          ["L0", "L1"], ["L1", "None"], ["B0", "None"], ["B0", "int"], ["B1", "None"], ["A0", "L0", "None"], ["int", "str", "None"],
-         ["L0"], ["B0"], ["A0"], ["L0", "str"], ["B0", "B1"], ["A0", "A1"]]
+         ["L0"], ["B0"], ["A0"], ["L0", "str"], ["B0", "B1"], ["A0", "A1"],
+         ["BF", "int"], ["BF", "None"], ["LF", "str"], ["LF", "None"], ["AF", "None"], ["AF", "int"], ["BF"], ["B0", "BF"], ["LF", "L0"]]
 EXCS = ["ValueError", "IndexError", "KeyError"]
 
 
